@@ -1,0 +1,75 @@
+// Copyright 2020-2025 Buf Technologies, Inc.
+//
+// Licensed under the Apache License, Version 2.0 (the "License");
+// you may not use this file except in compliance with the License.
+// You may obtain a copy of the License at
+//
+//      http://www.apache.org/licenses/LICENSE-2.0
+//
+// Unless required by applicable law or agreed to in writing, software
+// distributed under the License is distributed on an "AS IS" BASIS,
+// WITHOUT WARRANTIES OR CONDITIONS OF ANY KIND, either express or implied.
+// See the License for the specific language governing permissions and
+// limitations under the License.
+
+//go:build verif
+
+package bufcas
+
+// Contracts for the gocv verifier (see /verif/DESIGN.md). Comment-only.
+//
+//@ trusted pure interface FileNode
+//@ trusted pure interface Digest
+//@ trusted pure func DigestEqual(a, b) (r)
+// digest strings are canonical, contain no blank, and parse back to a digest with the same string (trusted; digest.go uses encoding/hex)
+//@ trusted pure func ParseDigest(s) (d, err)
+//@   ensures canonicalDigest(s) ==> err == nil && d != nil && d.String() == s
+//@   ensures err == nil ==> d != nil
+//@ trusted func bufparse.NewParseError(typeString, input, err) (r)
+//@   ensures r != nil
+//
+// C08: a manifest is a function of the SET of (path, digest) pairs: paths are unique, nodes are in path order.
+//@ func getAndValidateManifestPathToFileNode(fileNodes) (m, err)
+//@   property C08
+//@   ensures keyed-by-path: err == nil ==> m != nil && (forall k string :: k in m ==> m[k].Path() == k && (exists j int :: 0 <= j && j < len(fileNodes) && fileNodes[j] == m[k]))
+//@   ensures all-present: err == nil ==> (forall j int :: 0 <= j && j < len(fileNodes) ==> fileNodes[j].Path() in m && m[fileNodes[j].Path()] == fileNodes[j])
+//@   ensures duplicates-rejected: err == nil ==> (forall i int, j int :: 0 <= i && i < j && j < len(fileNodes) ==> fileNodes[i].Path() != fileNodes[j].Path())
+//@   loop 0 invariant pathToFileNode != nil && (forall k string :: k in pathToFileNode ==> pathToFileNode[k].Path() == k && (exists j int :: 0 <= j && j < $i && fileNodes[j] == pathToFileNode[k]))
+//@   loop 0 invariant forall j int :: 0 <= j && j < $i ==> fileNodes[j].Path() in pathToFileNode && pathToFileNode[fileNodes[j].Path()] == fileNodes[j]
+//@   loop 0 invariant forall i int, j int :: 0 <= i && i < j && j < $i ==> fileNodes[i].Path() != fileNodes[j].Path()
+//@   canary ensures err != nil
+//
+//@ func newManifest(pathToFileNode) (r)
+//@   property C08 C02
+//@   requires forall k string :: k in pathToFileNode ==> pathToFileNode[k].Path() == k
+//@   ensures sorted-by-path: r != nil && (forall a int, b int :: 0 <= a && a < b && b < len(r.sortedUniqueFileNodes) ==> r.sortedUniqueFileNodes[a].Path() < r.sortedUniqueFileNodes[b].Path())
+//@   ensures only-nodes: forall j int :: 0 <= j && j < len(r.sortedUniqueFileNodes) ==> r.sortedUniqueFileNodes[j].Path() in pathToFileNode && pathToFileNode[r.sortedUniqueFileNodes[j].Path()] == r.sortedUniqueFileNodes[j]
+//@   ensures all-nodes: forall k string :: k in pathToFileNode ==> (exists j int :: 0 <= j && j < len(r.sortedUniqueFileNodes) && r.sortedUniqueFileNodes[j] == pathToFileNode[k])
+//@   ensures r.pathToFileNode == pathToFileNode
+//@   loop 0 invariant forall j int :: 0 <= j && j < len(sortedUniqueFileNodes) ==> sortedUniqueFileNodes[j].Path() in pathToFileNode && sortedUniqueFileNodes[j].Path() in $visited && pathToFileNode[sortedUniqueFileNodes[j].Path()] == sortedUniqueFileNodes[j]
+//@   loop 0 invariant forall k string :: k in $visited ==> (exists j int :: 0 <= j && j < len(sortedUniqueFileNodes) && sortedUniqueFileNodes[j] == pathToFileNode[k])
+//@   loop 0 invariant forall i int, j int :: 0 <= i && i < j && j < len(sortedUniqueFileNodes) ==> sortedUniqueFileNodes[i].Path() != sortedUniqueFileNodes[j].Path()
+//
+// The published line format.
+//@ func (f *fileNode) String() (r)
+//@   property C08
+//@   ensures line-format: r == f.digest.String() + "  " + f.path
+//
+//@ func (m *manifest) String() (r)
+//@   property C08
+//@   modifies ghost.buf
+//@   reveal manifestText
+//@   ensures text: r == manifestText(m.sortedUniqueFileNodes, len(m.sortedUniqueFileNodes))
+//@   loop 0 invariant buffer in ghost.buf && ghost.buf[buffer] == manifestText(m.sortedUniqueFileNodes, $i)
+//
+// Parsing reverses String: any line "<canonical digest><SP><SP><valid normalized path>" parses to that path and digest.
+//@ func ParseFileNode(s) (r, err)
+//@   property C08
+//@   modifies heap
+//@   ensures round-trip: forall d string, p string :: s == d + "  " + p && canonicalDigest(d) && !contains(d, " ") && p != "" && validRel(p) && Normalize(p) == p ==> err == nil && r != nil && cast(*fileNode, r).path == p && cast(*fileNode, r).digest.String() == d
+//@   canary ensures err != nil
+//
+//@ func validateFileNodeParameters(path, digest) (err)
+//@   property C08 C13
+//@   ensures err == nil ==> path != "" && validRel(path) && Normalize(path) == path && digest != nil
+//@   ensures path != "" && validRel(path) && Normalize(path) == path && digest != nil ==> err == nil
